@@ -349,6 +349,10 @@ const (
 	FaultIOError = "ioerr" // the connection breaks: command not executed, the caller gets an I/O error
 	FaultRefuse  = "text"  // HAProxy answers with an unexpected text and does not execute the command
 	FaultNoise   = "noise" // HAProxy executes the command but the answer carries an unexpected text
+	// FaultEOF: the peer reads the command, does not execute it and closes the connection
+	// without a byte of answer. Not produced by the generators (a live HAProxy does not do
+	// that); kept for replays: pkg/haproxy/socket reads it as an empty, i.e. accepted, answer.
+	FaultEOF = "eof"
 )
 
 // Fault is a scripted fault on the Index-th (0-based) command addressed to Target
